@@ -463,3 +463,47 @@ func WaitUntil(d time.Duration, cond func() bool) bool {
 	}
 	return cond()
 }
+
+// StallMeter measures how late a 10 ms sleeper of this process wakes up: deadlines (upper bounds on what the client must
+// have done by now) are only judged when the machine did not freeze the driver itself.
+type StallMeter struct {
+	mu   sync.Mutex
+	hist []int // per 100 ms slot: worst oversleep (ms)
+	t0   time.Time
+}
+
+func NewStallMeter() *StallMeter {
+	s := &StallMeter{t0: time.Now()}
+	go func() {
+		for {
+			a := time.Now()
+			time.Sleep(10 * time.Millisecond)
+			over := int(time.Since(a)/time.Millisecond) - 10
+			slot := int(time.Since(s.t0) / (100 * time.Millisecond))
+			s.mu.Lock()
+			for len(s.hist) <= slot {
+				s.hist = append(s.hist, 0)
+			}
+			if over > s.hist[slot] {
+				s.hist[slot] = over
+			}
+			s.mu.Unlock()
+		}
+	}()
+	return s
+}
+
+func (s *StallMeter) Mark() int { return int(time.Since(s.t0) / (100 * time.Millisecond)) }
+
+// MaxSince is the worst single stall (ms) since Mark.
+func (s *StallMeter) MaxSince(mark int) int {
+	s.mu.Lock()
+	defer s.mu.Unlock()
+	mx := 0
+	for i := mark; i < len(s.hist); i++ {
+		if s.hist[i] > mx {
+			mx = s.hist[i]
+		}
+	}
+	return mx
+}
